@@ -447,6 +447,180 @@ func execDoH(f []string) vlib.Res {
 	return vlib.Res{Impl: impl, Oracle: or, Tags: tags}
 }
 
+// ---------------------------------------------------------------- dnsclient.Client over real loopback sockets (udp, then tcp after TC=1)
+
+type cliServer struct {
+	addr string
+	mu   sync.Mutex
+	udp  [][]byte // datagrams sent, in order, for every query received
+	tcp  [][]byte // frames written, in order, on every accepted connection's first query
+}
+
+var (
+	cliOnce sync.Once
+	cliSrv  *cliServer
+)
+
+func startCliServer() *cliServer {
+	var pc net.PacketConn
+	var ln net.Listener
+	var err error
+	for try := 0; try < 50; try++ {
+		pc, err = net.ListenPacket("udp", "127.0.0.1:0")
+		if err != nil {
+			panic(err)
+		}
+		ln, err = net.Listen("tcp", pc.LocalAddr().String())
+		if err == nil {
+			break
+		}
+		pc.Close()
+	}
+	if err != nil {
+		panic(err)
+	}
+	s := &cliServer{addr: pc.LocalAddr().String()}
+	go func() {
+		buf := make([]byte, 65535)
+		for {
+			_, from, err := pc.ReadFrom(buf)
+			if err != nil {
+				return
+			}
+			s.mu.Lock()
+			out := s.udp
+			s.mu.Unlock()
+			for _, b := range out {
+				pc.WriteTo(b, from)
+			}
+		}
+	}()
+	go func() {
+		for {
+			c, err := ln.Accept()
+			if err != nil {
+				return
+			}
+			go func(c net.Conn) {
+				defer c.Close()
+				c.SetDeadline(time.Now().Add(2 * time.Second))
+				var l [2]byte
+				if _, err := io.ReadFull(c, l[:]); err != nil {
+					return
+				}
+				if _, err := io.ReadFull(c, make([]byte, binary.BigEndian.Uint16(l[:]))); err != nil {
+					return
+				}
+				s.mu.Lock()
+				out := s.tcp
+				s.mu.Unlock()
+				for _, b := range out {
+					frame := make([]byte, 2+len(b))
+					binary.BigEndian.PutUint16(frame, uint16(len(b)))
+					copy(frame[2:], b)
+					c.Write(frame)
+				}
+				// wait for the client to hang up
+				io.Copy(io.Discard, c)
+			}(c)
+		}
+	}()
+	return s
+}
+
+// cli run <qid> <q|-> <udp cands|-> <tcp cands|-> <skipq t|f>      (Client{Proto: "udp"}: forwarder / failover transport)
+func execCli(f []string) vlib.Res {
+	cliOnce.Do(func() { cliSrv = startCliServer() })
+	qid := uint16(vlib.Atoi(f[2]))
+	req := new(dns.Msg)
+	req.Id = qid
+	var rq *xq
+	if f[3] != "-" {
+		q := parseXQ(f[3])
+		rq = &q
+		req.Question = []dns.Question{{Name: q.name, Qtype: q.qt, Qclass: q.qc}}
+	}
+	ucs, tcs := parseCands(f[4]), parseCands(f[5])
+	var ub, tb [][]byte
+	for i, c := range ucs {
+		ub = append(ub, candBytes(i, c))
+	}
+	for i, c := range tcs {
+		tb = append(tb, candBytes(100+i, c))
+	}
+	cliSrv.mu.Lock()
+	cliSrv.udp, cliSrv.tcp = ub, tb
+	cliSrv.mu.Unlock()
+	skipq := f[6] == "t"
+	c := &dnsclient.Client{Proto: "udp", Timeout: 120 * time.Millisecond, SkipQuestionCheck: skipq}
+	resp, _, err := c.Exchange(context.Background(), req, cliSrv.addr)
+	impl := ""
+	var got *xcand
+	switch {
+	case err == nil && resp != nil:
+		idx := -1
+		if len(resp.Answer) == 1 {
+			if t, ok := resp.Answer[0].(*dns.TXT); ok && len(t.Txt) == 1 {
+				idx = vlib.Atoi(t.Txt[0])
+			}
+		}
+		switch {
+		case idx >= 100 && idx-100 < len(tcs):
+			impl = fmt.Sprintf("ok t%d", idx-100)
+			got = &tcs[idx-100]
+		case idx >= 0 && idx < len(ucs):
+			impl = fmt.Sprintf("ok u%d", idx)
+			got = &ucs[idx]
+		default:
+			impl = "ok ?"
+		}
+	case errors.Is(err, dns.ErrId):
+		impl = "err id"
+	case errors.Is(err, dnsclient.ErrQuestion):
+		impl = "err question"
+	case err != nil:
+		impl = "err read"
+	default:
+		impl = "nil nil"
+	}
+	or := "ok"
+	if got != nil {
+		switch {
+		case got.id != qid:
+			or = fail("cli/accepted-wrong-id/"+impl[3:4], "want=%d got=%d", qid, got.id)
+		case rq != nil && !skipq && (len(got.qs) != 1 || got.qs[0].qt != rq.qt || got.qs[0].qc != rq.qc ||
+			strings.Join(oLabels(got.qs[0].name), "\x00") != strings.Join(oLabels(rq.name), "\x00")):
+			or = fail("cli/accepted-wrong-question/"+impl[3:4], "asked=%v got=%v", *rq, got.qs)
+		}
+	} else if err == nil {
+		or = fail("cli/no-error-no-identified-reply", "")
+	}
+	tags := "nt,cli"
+	if strings.HasPrefix(impl, "ok t") || len(tcs) > 0 {
+		tags += ",cli-tcpleg"
+	}
+	return vlib.Res{Impl: impl, Oracle: or, Tags: tags}
+}
+
+// ---------------------------------------------------------------- searchCache (authority selection on the warm-cache route)
+
+// scache run <zones|-> <qname> <qtype>
+func execSearchCache(f []string) vlib.Res {
+	zones := splitList(f[2], ",")
+	qname := f[3]
+	qtype := uint16(vlib.Atoi(f[4]))
+	zone, level := resolver.VerifC07SearchCache(zones, qname, qtype)
+	or := "ok"
+	// the servers of a cached zone may only be asked about names at or below that zone
+	// (a DS question belongs to the parent side: the zone must be a proper ancestor)
+	if !oInside(zone, qname) {
+		or = fail("scache/asked-servers-of-a-zone-the-name-is-not-in", "zone=%s qname=%s", zone, qname)
+	} else if qtype == dns.TypeDS && zone != "." && len(oLabels(zone)) >= len(oLabels(qname)) {
+		or = fail("scache/ds-question-sent-to-the-child-side", "zone=%s qname=%s", zone, qname)
+	}
+	return vlib.Res{Impl: fmt.Sprintf("zone=%s level=%d", strings.ToLower(zone), level), Oracle: or, Tags: "nt,scache"}
+}
+
 // ---------------------------------------------------------------- glue
 
 func ipOf(hexs string) net.IP { return net.IP(vlib.UnHex(hexs)) }
